@@ -492,10 +492,11 @@ theorem parseData_listed_colon (items : List (DataElement F)) (h : DataOK items)
 /-! ### what the parser produces (any input) -/
 
 /-- the part of `ItemOK` that holds of every parser output: a string item that is listed
-    without quotes is a `RawText` that is not a number -/
+    without quotes is a `RawText` that is not a number; a number item is the result of
+    parsing some text -/
 def StrOK : DataElement F → Prop
   | .str s => s.contains '"' = true → RawText s ∧ NumOps.parse (F := F) s = none
-  | .num _ => True
+  | .num x => ∃ s, NumOps.parse (F := F) s = some x
 
 theorem strOK_quoted (cur : Str) (h : ∀ c ∈ cur, c ≠ '"') : StrOK (F := F) (.str cur) := by
   intro hq
@@ -506,7 +507,7 @@ theorem strOK_rawElem (cur : Str) (h1 : ∀ c ∈ cur, c ≠ ',' ∧ c ≠ ':')
     (h2 : ∀ h m, trimStart cur = h :: m → h ≠ '"') : StrOK (F := F) (rawElem cur) := by
   unfold rawElem
   cases hp : NumOps.parse (F := F) (trim cur) with
-  | some x => trivial
+  | some x => exact ⟨trim cur, hp⟩
   | none =>
     intro hq
     cases e : trimStart cur with
